@@ -30,7 +30,7 @@ def proj(st):
         "destroyed": st["destroyed"],
         "heap": [{"tp": e["tp"], "id": e["id"], "k": e["k"]} for e in st["heap"]],
         "fut": [{"st": f["st"], "tp": f["tp"], "co": f["co"]} for f in as_list(st["fut"])],
-        "gen": {"st": st["gen"]["st"], "stp": st["gen"]["stp"]},
+        "gen": [{"st": g["st"], "stp": g["stp"]} for g in as_list(st["gen"])],
     }
     if st["phase"] != "manual":
         d["now"] = st["now"]
@@ -69,7 +69,7 @@ def model(ctx, rp, cfg, tag, consts, must, max_paths=None, extra_random=0, varia
         return None
     def hdr(k, st0):
         return {"mode": consts["Mode"], "coro": bool(k % 2), "slots": consts["MaxSleeps"],
-                "interval": consts["Interval"], "nc": consts["NC"], "tm": TIME_MAP, "forms": FORMS, "phase": k}
+                "interval": consts["Interval"], "interval2": consts["Interval2"], "nc": consts["NC"], "tm": TIME_MAP, "forms": FORMS, "phase": k}
     # the state graphs are dense and cyclic (history-free state, ~20 calls possible in every state):
     # vlib.cover_paths needs hours on them, see tools/fastcover.py
     with fastcover.installed():
@@ -80,7 +80,7 @@ def model(ctx, rp, cfg, tag, consts, must, max_paths=None, extra_random=0, varia
 
 def base(**kw):
     c = {"Mode": "manual", "TPs": {2, 4}, "Nows": {1, 2, 3, 4}, "Ids": {0, 1, 2}, "CancelIds": {0, 1, 2},
-         "MaxSleeps": 3, "MaxHeap": 3, "MaxOps": 0, "AllowRemove": True, "Interval": 0, "NC": 1,
+         "MaxSleeps": 3, "MaxHeap": 3, "MaxOps": 0, "AllowRemove": True, "Interval": 0, "Interval2": 0, "NC": 1,
          "MainRes": {"void"}, "MainVia": {"direct"}, "MaxRuns": 1}
     c.update(kw)
     return c
@@ -136,6 +136,11 @@ def run(ctx):
     if not q:
         itv.update(MaxSleeps=3, MaxHeap=4)
     model(ctx, rp, "Scheduler_interval.cfg", "interval", itv, MANUAL_ACTIONS + ["IntervalCall", "IntervalStop"])
+    # two interval() generators of one scheduler (same duration type, periods of two ticks and one tick), each with its own
+    # stop token: a stop request cancels exactly the stopped generator's sleep, whichever of the two is due first
+    itv2 = base(TPs={2, 6}, Nows={2, 3, 4, 6}, Ids={1} if q else {0, 1}, CancelIds={1}, MaxSleeps=2, MaxHeap=3, AllowRemove=False,
+                Interval=4, Interval2=2)
+    model(ctx, rp, "Scheduler_interval.cfg", "interval2", itv2, MANUAL_ACTIONS + ["IntervalCall", "IntervalStop"])
     # (b) start(awaitable), single thread, virtual time ------------------------------------------
     st = base(Mode="start", TPs={2, 4, 6}, Nows=set(), Ids={0, 1}, CancelIds={1}, MaxSleeps=2, MaxHeap=4,
               MaxOps=4, AllowRemove=False, NC=2)
@@ -163,7 +168,8 @@ def run(ctx):
                "resolution with sub-millisecond offsets, compared exactly; get_expired probes at each time point and 1 ns before it; "
                "identifiers from a small set with reuse, nullptr included; at most 3-5 sleeps pending at the same time, array of at "
                "most 3-6 entries (histories themselves are unbounded: the state graph is cyclic and every edge is replayed)")
-    ctx.assume("API forms sleep_until / schedule(id,promise,tp) / sleep_for(ns, us, 32-bit us, half-ms, ms, s, min) / interval(us|ns) "
+    ctx.assume("API forms sleep_until / schedule(id,promise,tp) / sleep_for(ns, us, 32-bit us, half-ms, ms, s, min) / interval(us|ns; "
+               "one or two generators per scheduler, the same duration type for both, each with its own stop token) "
                "rotate per call (every behaviour is replayed once, thorough: twice with different rotations), not every form on every "
                "edge; sleep_for(floating point duration) is exercised only if the library compiles it (it does not at present)")
     ctx.assume("std::push_heap/std::pop_heap are modelled move by move after libstdc++ 12 bits/stl_heap.h; the replay compares "
